@@ -82,9 +82,12 @@ pub fn compare_document(what: &str, got: &[PVertex], exp: &[PVertex], check_orde
 }
 
 fn canonical_graph(m: &Model) -> Vec<u8> {
+    // by label VALUE (menu index), not by printed text: two labels may print alike
     let mut out = vec![];
-    for v in expected_vertices(m) {
-        out.extend_from_slice(format!("{}:{:?}:{:?};", v.id, sorted_edges(&v.edges), v.data).as_bytes());
+    for (v, mv) in &m.present {
+        let mut e = mv.edges.clone();
+        e.sort_unstable();
+        out.extend_from_slice(format!("{v}:{e:?}:{:?};", mv.data.map(dat_bytes)).as_bytes());
     }
     out
 }
@@ -117,6 +120,43 @@ pub fn exports_probe<const N: usize>(cfg: &HxCfg, g: &Sodg<N>, m: &Model, hist: 
     match parse::parse_dot(&dot) {
         Ok(pv) => out.extend(compare_document("dot", &pv, &exp, true, tags)),
         Err(e) => out.push(Finding::new("dot-unparsable", tags, format!("cannot read the DOT back: {e}"))),
+    }
+    // the same OBJECT exported again after each read of a datum (a collection in between must show)
+    if let Some(mut c) = exact_copy(g) {
+        let mut mc = m.clone();
+        let _ = guarded(|| c.to_xml());
+        let _ = guarded(|| c.to_dot());
+        for v in m.keys() {
+            if !mc.present.contains_key(&v) || mc.present[&v].data.is_none() {
+                continue;
+            }
+            if guarded(|| c.data(v)).is_err() {
+                break;
+            }
+            mc.apply(&Op::Data(v));
+            if guarded(|| c.keys()).ok() != Some(mc.keys()) {
+                break; // the collection itself went differently: C01/C02 judge that, not C18
+            }
+            let e2 = expected_vertices(&mc);
+            let n0 = out.len();
+            if let Ok(Ok(x)) = guarded(|| c.to_xml()) {
+                if let Ok(pv) = parse::parse_xml(&x) {
+                    out.extend(compare_document("xml", &pv, &e2, true, tags));
+                }
+            }
+            if let Ok(d) = guarded(|| c.to_dot()) {
+                if let Ok(pv) = parse::parse_dot(&d) {
+                    out.extend(compare_document("dot", &pv, &e2, true, tags));
+                }
+            }
+            if out.len() > n0 {
+                for f in out[n0..].iter_mut() {
+                    f.kind = format!("{}-when-exported-again-after-a-read", f.kind);
+                    f.detail = format!("exported, then data({v}) read, then exported again from the same object: {}", f.detail);
+                }
+                return;
+            }
+        }
     }
     // build-independence: same present vertices, edges, data => same text
     let key = canonical_graph(m);
@@ -385,6 +425,76 @@ pub fn slice_probe<const N: usize>(cfg: &HxCfg, g: &Sodg<N>, m: &Model, out: &mu
             out.push(Finding::new("slice-changed-source", tags, "the source graph changed while it was sliced".to_string()));
         }
     }
+}
+
+/// C04 on the graphs slice() returns: every id below the source's capacity can be added to the
+/// slice - a kept vertex is left alone, any other id gives a blank present vertex - and so can
+/// the ids its next_id() hands out.
+pub fn slice_add_probe<const N: usize>(g: &Sodg<N>, m: &Model, out: &mut Vec<Finding>, counters: &mut BTreeMap<&'static str, u64>) {
+    let tags: &[&'static str] = &["C04"];
+    for v in m.keys() {
+        let Some(reach) = m.reachable_present(v) else { continue };
+        if reach.len() > 14 {
+            continue;
+        }
+        let Ok(Ok(s0)) = guarded(|| g.slice(v)) else { continue }; // C13 judges slice() itself
+        if guarded(|| s0.keys()).ok() != Some(reach.iter().copied().collect::<Vec<usize>>()) {
+            continue;
+        }
+        for id in 0..m.cap {
+            let Ok(mut s) = guarded(|| g.slice(v).unwrap()) else { break };
+            let kids_before = guarded(|| kids_of(&s, id)).ok();
+            match guarded(|| s.add(id)) {
+                Err(e) => {
+                    out.push(Finding::new("add-on-slice-panics", tags, format!("add({id}) on slice({v}) (source capacity {}) panicked: {e}", m.cap)));
+                    return;
+                }
+                Ok(()) => {
+                    let present = guarded(|| s.keys()).unwrap_or_default().contains(&id);
+                    let kids = guarded(|| kids_of(&s, id)).unwrap_or_default();
+                    if !present {
+                        out.push(Finding::new("add-on-slice-ignored", tags, format!("after add({id}) on slice({v}) the vertex is not present")));
+                        return;
+                    }
+                    if reach.contains(&id) {
+                        if Some(&kids) != kids_before.as_ref() {
+                            out.push(Finding::new("add-on-slice-changed-present", tags, format!("add({id}) on slice({v}) changed the edges of the kept vertex")));
+                            return;
+                        }
+                    } else if !kids.is_empty() || guarded(|| s.data(id)).ok().flatten().is_some() {
+                        out.push(Finding::new("add-on-slice-not-blank", tags, format!("add({id}) on slice({v}) gives a vertex that is not blank: {:?}", fmt_kids(&kids))));
+                        return;
+                    }
+                }
+            }
+            bump(counters, "adds_on_slices", 1);
+        }
+        // and what its own allocator hands out
+        if let Ok(mut s) = guarded(|| g.slice(v).unwrap()) {
+            if reach.len() < m.cap {
+                match guarded(|| s.next_id()) {
+                    Ok(id) if id < m.cap && !reach.contains(&id) => {
+                        if guarded(|| s.add(id)).is_err() {
+                            out.push(Finding::new("add-on-slice-panics", tags, format!("add(next_id()={id}) on slice({v}) panicked")));
+                            return;
+                        }
+                    }
+                    Ok(id) => {
+                        out.push(Finding::new("slice-next-id", &["C05", "C04"], format!("next_id() on slice({v}) returned {id} (kept: {reach:?}, capacity {})", m.cap)));
+                        return;
+                    }
+                    Err(e) => {
+                        out.push(Finding::new("slice-next-id", &["C05", "C04"], format!("next_id() on slice({v}) panicked although ids are free: {e}")));
+                        return;
+                    }
+                }
+            }
+        }
+    }
+}
+
+fn fmt_kids(k: &[(Label, usize)]) -> String {
+    crate::hx::fmt_edges(k)
 }
 
 /// Every public observable of a graph as one text (used for "answers every query alike").
@@ -790,6 +900,10 @@ pub fn run_all<const N: usize>(
     if p.slice {
         *runs += 1;
         slice_probe(cfg, g, m, out, counters);
+    }
+    if p.slice_add {
+        *runs += 1;
+        slice_add_probe(g, m, out, counters);
     }
     if p.clone {
         *runs += 1;
